@@ -1824,8 +1824,11 @@ fn step_mode_user(m: &M, _cfg: &SpecCfg, me: &str, src: &str, actor: &Actor, p: 
                         if !u.lo {
                             priv_err = true;
                         }
-                    } else if u.lo {
+                    } else if u.lo || u.o {
+                        // a global operator is a local operator too: resigning the
+                        // lower privilege resigns operator status altogether (§4.0)
                         u.lo = false;
+                        u.o = false;
                         unset_s.push('O');
                     }
                 }
